@@ -526,6 +526,63 @@ def family_subsume(tier, start=0):
         P.rules.append(rename(sub, m))
         cases.append(Case(cid, "subsume", P, name + ": " + show(P.rules[-1]), tags=("subsume", monotone, name), ref_prog=Q, ref_map={r: r}))
         cid += 1
+    # structural family: the subsumptive relation inside different recursion structures x {min, max} order x partner relations whose
+    # names sort before / after it (the order in which the relations of one SCC are evaluated follows the names)
+    Cv, Wv = Var("c"), Var("w")
+    orders = [
+        ("min", Num(0), Fn("+", [Cv, Wv]), [Cmp("<", Fn("+", [Cv, Wv]), Num(12))], lambda r: Subsume(Atom(r, [X, C1]), Atom(r, [X, C2]), [Cmp("<", C2, C1)])),
+        ("max", Num(9), Fn("min", [Cv, Wv]), [], lambda r: Subsume(Atom(r, [X, C1]), Atom(r, [X, C2]), [Cmp("<", C1, C2)])),
+    ]
+    attrs2 = [("x", "number"), ("c", "number")]
+    for oname, c0, newc, guard, mksub in orders:
+        def init(r):
+            return Rule([Atom(r, [X, c0])], [Atom("a", [X])], None)
+
+        def step(h, src):
+            return Rule([Atom(h, [Y, newc])], [Atom(src, [X, Cv]), Atom("w3", [X, Y, Wv])] + guard, None)
+
+        def copy_(h, src):
+            return Rule([Atom(h, [X, Cv])], [Atom(src, [X, Cv])], None)
+
+        for pos in ("ah", "zh"):
+            structs = [
+                ("direct", lambda r, h, g: [init(r), step(r, r)], (), ()),
+                ("mutual-step-in-partner", lambda r, h, g: [init(r), step(h, r), copy_(r, h)], ("h",), ()),
+                ("mutual-step-in-self", lambda r, h, g: [init(r), copy_(h, r), step(r, h)], ("h",), ()),
+                ("three-cycle", lambda r, h, g: [init(r), step(h, r), copy_(g, h), copy_(r, g)], ("h", "g"), ()),
+                ("both-subsumptive", lambda r, h, g: [init(r), step(h, r), copy_(r, h)], ("h",), ("h",)),
+                ("downstream", lambda r, h, g: [init(r), step(r, r), copy_(h, r)], ("h",), ("h-out",)),
+            ]
+            for sname, mk, partners, special in structs:
+                if not partners and pos == "zh":
+                    continue
+                P, Q = Program(), Program()
+                for PP in (P, Q):
+                    _ae(PP)
+                    PP.rel("w3", [("x", "number"), ("y", "number"), ("w", "number")], is_input=True)
+                r = "r_%d" % cid
+                h = "%s_%d" % (pos, cid)
+                g = "%sg_%d" % (pos, cid)
+                P.rel(r, attrs2, quals=("btree_delete",), is_output=True)
+                Q.rel(r, attrs2, is_output=True)
+                rmap = {r: r}
+                for pn, nm in (("h", h), ("g", g)):
+                    if pn in partners:
+                        sub_too = pn in special
+                        out_too = sub_too or (pn + "-out") in special
+                        P.rel(nm, attrs2, quals=("btree_delete",) if sub_too else (), is_output=out_too)
+                        Q.rel(nm, attrs2, is_output=out_too)
+                        if out_too:
+                            rmap[nm] = nm
+                for ru in mk(r, h, g):
+                    P.rules.append(ru)
+                    Q.rules.append(ru)
+                P.rules.append(mksub(r))
+                if "h" in special:
+                    P.rules.append(mksub(h))
+                cases.append(Case(cid, "subsume", P, "%s/%s partner-prefix=%s: %s" % (sname, oname, pos, "; ".join(show(x) for x in P.rules)),
+                                  tags=("subsume", True, sname), ref_prog=Q, ref_map=rmap))
+                cid += 1
     dbs = []
     for a in (((0,),), ((0,), (3,))):
         for e, w in ((((0, 1), (0, 2), (1, 5), (1, 3), (2, 2)), ((0, 1, 2), (1, 2, 2), (0, 2, 7), (2, 3, 1), (3, 0, 1))),
